@@ -31,6 +31,13 @@ CLAIMED = {
             "half-finished failing calls are symbolic: the last operation equals the same operation on a fresh pool for ALL points. Known finding D3."),
     "C10": ("6/C10", "After every history of the bounded alphabet each operand still equals, prints, hashes and (for ALL points) evaluates like its fresh twin; "
             "list helpers against their specification for an arbitrary integer index; Point against later dict mutation."),
+    "C14": ("6/C14", "Coordinate values symbolic, supplied-variable subsets/extra coordinates/routes enumerated: CoordinateMissing never with all variables "
+            "supplied, never a number with a variable missing (also with warm caches), bare number/Derivative accepted exactly for <=1 variable; names by "
+            "a regular-language lemma (z3 strings) on the real constructor, executed with a symbolic str subclass."),
+    "C15": ("6/C15", "x ** k for ALL integers and ALL reals k (symbolic): NthPower(x,k) with int n exactly for integral k >= 1, else an exception; operators vs "
+            "constructor twins (==, class, printed form) over all pairs of operand kinds incl. a symbolic constant; foreign operands rejected."),
+    "C16": ("6/C16", "n over ALL integers/reals and base over ALL reals (symbolic): accepted <=> documented range, stored == given (n as int); names by the "
+            "regular-language lemma; every constructor position rejects the enumerated foreign objects."),
     "C17": ("6/C17", "On every solver-feasible path of evaluation / derivative routes / as_expression the outcome is a real number, DomainError or "
             "CoordinateMissing; proxies reproduce Python's ZeroDivisionError/ValueError/complex/TypeError/KeyError behaviour."),
 }
